@@ -61,16 +61,27 @@ RankSet(S) ==
 
 RankElim(M) == RankSet({M[j] : j \in DOMAIN M})
 
-\* Families as they come out of JSON: F is a sequence of sequences of 0-based coordinates
-\* < n (duplicate-free), v a sequence of 0-based indices into F.  Parity(F, n, v)[x+1] is the
-\* parity of the number of selected members that contain coordinate x, i.e. the indicator
-\* function of XorSel(F, v).
-ZeroVec(n) == [x \in 1..n |-> 0]
-Parity(F, n, v) ==
-  FoldLeft(LAMBDA acc, j : FoldLeft(LAMBDA a, x : [a EXCEPT ![x + 1] = 1 - @], acc, F[j + 1]),
-           ZeroVec(n), v)
-
+\* Families as they come out of JSON: F is a sequence of sequences of 0-based coordinates < n
+\* (duplicate-free); member number j (0-based) is F[j + 1].
 SeqToSet(s) == {s[i] : i \in 1..Len(s)}
 InRange(s, n) == \A i \in 1..Len(s) : s[i] \in 0..(n - 1)
 NoDup(s) == Cardinality(SeqToSet(s)) = Len(s)
+\* the members of F as sets (built as an explicit sequence: a function constructor [i \in .. |-> ..]
+\* would be re-evaluated by TLC at every application)
+Sets(F) == FoldLeft(LAMBDA acc, s : Append(acc, SeqToSet(s)), <<>>, F)
+
+\* Transposition: Coords(F, n)[x + 1] = the set of (0-based) members of F that contain coordinate x
+\* (for a matrix given by columns: the rows, as sets of column indices)
+CoordsDef(F, n) == [x \in 1..n |-> {j \in 0..(Len(F) - 1) : \E i \in 1..Len(F[j + 1]) : F[j + 1][i] = x - 1}]
+\* the same, in one pass over the entries
+Coords(F, n) ==
+  LET lists == FoldLeft(LAMBDA acc, j :
+                          FoldLeft(LAMBDA a, x : [a EXCEPT ![x + 1] = Append(@, j - 1)], acc, F[j]),
+                        [x \in 1..n |-> <<>>], [j \in 1..Len(F) |-> j])
+  IN Sets(lists)
+
+\* C = Coords(F, n), V a set of members of F: the sum of the members V has coordinate x iff an odd
+\* number of them contain x
+OddAt(C, x, V) == Cardinality(C[x + 1] \cap V) % 2 = 1
+SumIsZero(C, V) == \A x \in 1..Len(C) : Cardinality(C[x] \cap V) % 2 = 0
 =============================================================================
